@@ -32,22 +32,34 @@ func GenShare(r *rand.Rand) ShareScenario {
 		rd := r.Intn(2) == 0
 		sc.Cfg.Rd = &rd
 	}
-	if !connectable && r.Intn(4) == 0 {
+	forced := -1
+	if ShareForcedShapes > 0 {
+		// park mode: the first scenarios of every run ARE the counterexample shapes with a kept termination (complete / error, with and
+		// without a value before)
+		forced = 4 - ShareForcedShapes
+		ShareForcedShapes--
+		connectable = false
+		sc.Cfg.Rd = nil
+	}
+	if !connectable && (forced >= 0 || r.Intn(4) == 0) {
 		// the shape of ShareImpl's counterexamples: the source terminates (thread 0, the one park mode preempts at every lock boundary)
 		// while the only subscriber leaves and a new one joins and leaves (thread 1) - a reference or a flag of the old execution
 		// must not reach the new one
 		sc.Cfg.Rz = true
 		term := []string{"complete", "error"}[r.Intn(2)]
+		if forced >= 0 {
+			term = []string{"complete", "error"}[forced%2]
+		}
 		sc.Scripts = [][]string{{term}, {"sub", "unsub", "sub", "unsub"}}
-		sc.Pre = 1          // the subscriber is there before the source terminates
-		if r.Intn(2) == 0 { // ... with a termination that is KEPT (no reset), the case in which the flags matter
+		sc.Pre = 1                         // the subscriber is there before the source terminates
+		if forced >= 0 || r.Intn(2) == 0 { // ... with a termination that is KEPT (no reset), the case in which the flags matter
 			if term == "complete" {
 				sc.Cfg.Rc = false
 			} else {
 				sc.Cfg.Re = false
 			}
 		}
-		if r.Intn(2) == 0 {
+		if forced >= 2 || (forced < 0 && r.Intn(2) == 0) {
 			sc.Scripts[0] = append([]string{"next"}, sc.Scripts[0]...)
 		}
 		return sc
